@@ -59,6 +59,16 @@ let parse_op toks = match toks with
   | ["len"; v] -> OLen (nat v)
   | ["appo"; v; o; l] -> OAppendOwn (nat v, nat o, nat l)
   | ["printfs"; v; a; b] -> OPrintfSelf (nat v, hx a, hx b)
+  | ["eqlit"; v; h] -> OEqLit (nat v, hx h)
+  | ["splitset"; v; h; k] -> OSplitSet (nat v, hx h, k = "1")
+  | ["fromprintf"; h] -> OFromPrintf (hx h)
+  | ["stat"; q; v; u; n] ->
+    let qq = (match q with
+      | "scmp" -> QCompare | "scmpn" -> QCompareN (nat n) | "scmpi" -> QCompareIC | "scmpin" -> QCompareICN (nat n)
+      | "eqin" -> QEqualsICN (nat n) | "sstarts" -> QStartsWith | "slen" -> QLength
+      | "sfindc" -> QFindC (zi n) | "sfindlc" -> QFindLastC (zi n)
+      | _ -> failwith ("bad query: " ^ q)) in
+    OStat (qq, nat v, nat u)
   | _ -> failwith ("bad op: " ^ String.concat " " toks)
 
 (* a byte the model holds as indeterminate / out of range prints as the wildcard pair *)
